@@ -444,6 +444,43 @@ impl BitsVal {
             _ => {}
         }
     }
+    /// provided iterator methods on the concrete iterator types of this structure
+    pub fn check_iter_adapters(&self, m: &crate::model::BitModel, seed: u64, ctx: &mut crate::runner::Ctx) -> crate::runner::CheckResult {
+        use crate::iteradapt::check_adapters as ca;
+        let who = self.kind().name();
+        let n = m.n();
+        let p = if n == 0 { 0 } else { (seed as usize) % (n + 1) };
+        let from1 = m.ones.partition_point(|&x| x < p);
+        let from0 = m.zeros.partition_point(|&x| x < p);
+        macro_rules! common {
+            ($x:expr) => {{
+                ca(|| $x.iter(), &m.b, seed, &format!("{who} iter()"), ctx)?;
+                ca(|| $x.ones(), &m.ones, seed ^ 1, &format!("{who} ones()"), ctx)?;
+                ca(|| $x.zeros(), &m.zeros, seed ^ 2, &format!("{who} zeros()"), ctx)?;
+                ca(|| $x.ones_with_pos(p), &m.ones[from1..], seed ^ 3, &format!("{who} ones_with_pos({p})"), ctx)?;
+                ca(|| $x.zeros_with_pos(p), &m.zeros[from0..], seed ^ 4, &format!("{who} zeros_with_pos({p})"), ctx)?;
+            }};
+        }
+        match self {
+            BitsVal::Bv(x) => {
+                common!(x);
+                ca(|| <&BitVector as IntoIterator>::into_iter(x), &m.b, seed ^ 5, &format!("{who} (&bv).into_iter()"), ctx)?;
+                if n <= 20_000 {
+                    ca(|| x.clone().into_iter(), &m.b, seed ^ 6, &format!("{who} into_iter()"), ctx)?;
+                }
+            }
+            BitsVal::Bvm(x) => {
+                common!(x);
+                if n <= 20_000 {
+                    ca(|| x.clone().into_iter(), &m.b, seed ^ 6, &format!("{who} into_iter()"), ctx)?;
+                }
+            }
+            BitsVal::Da0(x) => common!(x),
+            BitsVal::Da1(x) => common!(x),
+            _ => {}
+        }
+        Ok(())
+    }
     pub fn ser(&self) -> Result<Vec<u8>, String> {
         let r = match self {
             BitsVal::Bv(x) => bincode::serialize(x),
